@@ -72,3 +72,15 @@ Proof.
   intros [HS HH] Hi G1 G2 Fe F. getflds F. split; [tx_sinv HS g t' idtac |].
   eapply HInv_tx; [exact HH | exact Hi | rwt t'; try lia; auto | rwt t'; try lia; auto | exact Fe ].
 Qed.
+
+Lemma tx_AR2 g n cm ap h i t t' :
+  IA g n cm ap h -> g i = Some t -> ra t = 1 ->
+  flds t' = (t_rb t, t_cc t, t_ca t, t_cord t, t_rc t, Some Complete, t_rord t, t_ridx t) ->
+  IA (updf g i t') n cm ap (h ++ []).
+Proof. intros HA Hi G F. eapply tx_AR_done with (s := Complete); eauto. cbn; lia. Qed.
+
+Lemma tx_AR3 g n cm ap h i t t' :
+  IA g n cm ap h -> g i = Some t -> ra t = 1 ->
+  flds t' = (t_rb t, t_cc t, t_ca t, t_cord t, t_rc t, Some Failed, t_rord t, t_ridx t) ->
+  IA (updf g i t') n cm ap (h ++ [ev PhRollback StApply i Failed]).
+Proof. intros HA Hi G F. eapply tx_AR_done with (s := Failed); eauto. cbn; lia. Qed.
